@@ -148,3 +148,16 @@ Definition check_crash (c : crash_case) : N :=
     (if tmp_ext && forallb good (map (fun o => if N.eqb o 0 then 1 else o) outs) && N.eqb after 2
      then (if agree then V_KNOWN 3 else V_MISMATCH) else V_VIOLATION)
   else if agree then V_OK else V_MISMATCH.
+
+(* ---------------------------------------------------------------- a concurrent observer of the path *)
+(* One thread saves two stores alternately to one path (an older snapshot is always there); another
+   thread keeps opening the path.  (saves done, polls done, polls that found no file, polls whose
+   content was neither of the two snapshots).  Atomic replacement: the path always holds one of them. *)
+Definition observe_case := (N * N * N * N)%type.
+Definition check_observe (c : observe_case) : N :=
+  let '(saves, polls, missing, foreign) := c in
+  if negb (N.eqb missing 0 && N.eqb foreign 0) then V_VIOLATION
+  else
+    (* the model says a poll can find no file only if some step before the rename touches the target *)
+    V_OK.
+
